@@ -57,6 +57,16 @@ class PChoice(betterproto.Message):
 
 
 @dataclass(eq=False, repr=False)
+class Nest(betterproto.Message):
+    """recursive: chains deeper than the interpreter's stack make the recursive observers raise"""
+    tag: int = betterproto.int32_field(1)
+    child: "Nest" = betterproto.message_field(2)
+    kids: List["Nest"] = betterproto.message_field(3)
+    g_n: int = betterproto.int32_field(4, group="g")
+    g_s: str = betterproto.string_field(5, group="g")
+
+
+@dataclass(eq=False, repr=False)
 class Mid(betterproto.Message):
     leaf: "Leaf" = betterproto.message_field(1)
     name: str = betterproto.string_field(2)
@@ -479,6 +489,61 @@ TIMES = [("epoch", EPOCH), ("epoch+1us", EPOCH + timedelta(microseconds=1)), ("e
          ("1960-06-15T01:02:03.25-08:00", datetime(1960, 6, 15, 1, 2, 3, 250000, tzinfo=_tz(-8)))]
 
 
+def scale_instances():
+    """sizes beyond what small examples reach: payload lengths that need 3-byte length prefixes and exceed 64 KiB, element
+    counts beyond 127 and 16383, a few hundred map entries / repeated messages"""
+    return [
+        ("Deep(mid=Mid(name='n'*70000))", lambda: Deep(mid=Mid(name="n" * 70000))),
+        ("Deep(r_d=[1.5]*9000)", lambda: Deep(r_d=[1.5] * 9000)),
+        ("Deep(rw_bytes=[b'\\xab'*70000, b''])", lambda: Deep(rw_bytes=[b"\xab" * 70000, b""])),
+        ("Deep(r_choice=[Choice(count=i) for i in range(300)])", lambda: Deep(r_choice=[Choice(count=i) for i in range(300)])),
+        ("Deep(m_choice={str(i): Choice(label=str(i)) for i in range(200)})", lambda: Deep(m_choice={str(i): Choice(label=str(i)) for i in range(200)})),
+        ("Deep(m_f={i: i/4 for i in range(-150, 150)})", lambda: Deep(m_f={i: i / 4 for i in range(-150, 150)})),
+        ("Wide(big=bytes(range(256))*300)", lambda: Wide(big=bytes(range(256)) * 300)),
+        ("Wide(big=b'\\x00'*16384)", lambda: Wide(big=b"\x00" * 16384)),
+        ("Wide(r_sint=list(range(-9000, 9000)))", lambda: Wide(r_sint=list(range(-9000, 9000)))),
+        ("Wide(r_fx32=[2**32-1]*17000)", lambda: Wide(r_fx32=[2**32 - 1] * 17000)),
+        ("Wide(o_str='\\u00e9'*40000)", lambda: Wide(o_str="\u00e9" * 40000)),
+        ("Wide(m_i64_leaf={i*2**40: Leaf(n=i) for i in range(-130, 130)})", lambda: Wide(m_i64_leaf={i * 2**40: Leaf(n=i) for i in range(-130, 130)})),
+    ] + [
+        # payload lengths on both sides of the 2-/3-byte and 3-/4-byte length-prefix boundaries, low and high field number
+        (f"Wide(big=b'x'*{n})", lambda n=n: Wide(big=b"x" * n)) for n in (16381, 16382, 16383, 16385, 2097150, 2097151, 2097152)
+    ] + [
+        (f"High(rs72=['y'*{n}])", lambda n=n: High(rs72=["y" * n])) for n in (16382, 16383, 2097151)
+    ] + [
+        (f"Deep(r_d=[0.5]*{n})", lambda n=n: Deep(r_d=[0.5] * n)) for n in (2047, 2048)       # packed payload 16376 / 16384 bytes
+    ]
+
+
+def truncation_at_scale(col, prop):
+    """C10 / C17: a message whose whole encoding is ONE large field, cut anywhere strictly inside: the decoder raises (never
+    a shortened or padded message); the same for the delimited frame.  Cut points: around every length-prefix and
+    buffer-size boundary and a seeded sample in between"""
+    rnd = random.Random(20261005)
+    singles = [(h, mk) for h, mk in scale_instances() if h.startswith(("Deep(mid=Mid(name", "Deep(r_d=", "Wide(big=bytes", "Wide(r_fx32", "Wide(o_str"))]
+    for how0, mk in singles:
+        m = mk()
+        b = bytes(m)
+        frame = io.BytesIO()
+        m.dump(frame, betterproto.SIZE_DELIMITED)
+        frame = frame.getvalue()
+        for label, data, dec in (("parse", b, lambda d: type(m)().parse(d)), ("load-size-delimited", frame, lambda d: type(m)().load(io.BytesIO(d), betterproto.SIZE_DELIMITED))):
+            if (label == "parse") != (prop == "C17") and prop in ("C10", "C17"):
+                continue
+            cuts = {1, 2, 3, 4, 5, 127, 128, 129, 130, 4095, 4096, 4097, 8191, 8192, 8193, 16383, 16384, 16385, 32768, 65535, 65536, 65537, 65538, 65540,
+                    len(data) - 1, len(data) - 2, len(data) - 3, len(data) // 2}
+            cuts |= {rnd.randrange(1, len(data)) for _ in range(25)}
+            for cut in sorted(c for c in cuts if 0 < c < len(data)):
+                how = f"{how0}: {label} of the first {cut} of {len(data)} bytes"
+                col.cases += 1
+                col.distinct.add(how0 + label)
+                try:
+                    got = dec(data[:cut])
+                except Exception:
+                    continue
+                col.fail("truncated-large-field-accepted", how, f"returned a message encoding to {len(bytes(got))} bytes")
+
+
 def wide_instances():
     T1, T2 = EPOCH + timedelta(seconds=1, microseconds=5), datetime(1960, 6, 15, 1, 2, 3, 250000, tzinfo=_tz(-8))
     D1, D2 = timedelta(microseconds=-500000), timedelta(days=400, microseconds=1)
@@ -578,6 +643,7 @@ def instances(rnd, n):
     out.append(("Deep(w_u64=2**64-1)", lambda: Deep(w_u64=2**64 - 1)))
     out.append(("Deep().parse(rw_i64 = [default element, 7])", lambda: Deep().parse(bytes.fromhex("6a006a020807"))))
     out += wide_instances()
+    out += scale_instances()
     out += history_instances(rnd, max(20, n // 5))
     base = list(out)
     while len(out) < n:
@@ -930,6 +996,161 @@ def declaration_styles(col):
 def _assign(m, name, value):
     setattr(m, name, value)
     return m
+
+
+def failed_decode_states(col):
+    """histories that contain a decode which RAISES: afterwards the message is in the state before the decode or in the
+    state after decoding some prefix of the input's fields (nothing else is a state any sequence of operations produced);
+    whatever that state is, it is a coherent one (the selected member reads, the others raise, the encoding carries it)"""
+    bad_tails = [("a truncated string field", bytes.fromhex("12056162")), ("invalid UTF-8 in a string field", bytes.fromhex("1202fffe")),
+                 ("field number 0", bytes.fromhex("0001")), ("a truncated varint", bytes.fromhex("0880")), ("a truncated sub-message", bytes.fromhex("22050801"))]
+    bases = [("Choice()", lambda: Choice()), ("Choice(count=5)", lambda: Choice(count=5)), ("Choice(label='keep')", lambda: Choice(label="keep")),
+             ("Choice(leaf=Leaf(n=2))", lambda: Choice(leaf=Leaf(n=2))), ("Choice().parse(unknown 9)", lambda: Choice().parse(bytes.fromhex("4807")))]
+    goods = [("label='hello'", lambda: Choice(label="hello")), ("flag=True", lambda: Choice(flag=True)), ("count=0", lambda: Choice(count=0)),
+             ("leaf=Leaf(n=7)", lambda: Choice(leaf=Leaf(n=7))), ("unknown field 9", lambda: Choice().parse(bytes.fromhex("4803")))]
+    for bname, base in bases:
+        for k in (0, 1, 2):
+            for gi in range(len(goods)):
+                pieces = [goods[(gi + j) % len(goods)] for j in range(k)]
+                for tname, tail in bad_tails:
+                    how = f"m = {bname}; m.parse(<{', '.join(p[0] for p in pieces)}> then {tname}) raises; then m is used again"
+                    col.cases += 1
+                    col.distinct.add(how)
+                    data = b"".join(bytes(p[1]()) for p in pieces) + tail
+                    m = base()
+                    try:
+                        m.parse(data)
+                        continue                      # accepted: C17's subject, nothing to say here
+                    except Exception:
+                        pass
+                    cands = []
+                    for j in range(len(pieces) + 1):
+                        c = base()
+                        pre = b"".join(bytes(p[1]()) for p in pieces[:j])
+                        if pre:
+                            c.parse(pre)
+                        cands.append(c)
+                    st = guard(col, "observe-after-failed-decode", how, lambda: json.dumps(view(m), sort_keys=True, default=str))
+                    if st is None:
+                        continue
+                    if st not in [json.dumps(view(c), sort_keys=True, default=str) for c in cands]:
+                        col.fail("state-after-failed-decode-is-no-prefix-state", how, f"{st} not among {[norm(view(c)) for c in cands]}")
+                        continue
+                    sel = betterproto.which_one_of(m, "pick")[0]
+                    b = guard(col, "encode-after-failed-decode", how, lambda: bytes(m))
+                    if b is None:
+                        continue
+                    if b not in [bytes(c) for c in cands]:
+                        col.fail("encoding-after-failed-decode-is-no-prefix-state", how, f"{b.hex()} not among {[bytes(c).hex() for c in cands]}")
+                    for other in ("count", "label", "flag", "leaf"):
+                        if other == sel:
+                            continue
+                        try:
+                            getattr(m, other)
+                            col.fail("unselected-member-readable-after-failed-decode", how, f"selected {sel!r}, reading {other!r} did not raise")
+                        except AttributeError:
+                            pass
+                        except Exception as e:
+                            col.fail("unselected-member-read-raises-other", how, repr(e))
+
+
+def decodes_after_failures(col):
+    """a rejected input leaves no trace on later decodes: the same valid encodings (flat, nested 40 deep, with unknown
+    fields, delimited) decode to the same messages before and after a few hundred rejected inputs of every kind"""
+    def chain_bytes(d):
+        n = Nest(tag=1, g_s="leaf")
+        for i in range(d):
+            n = Nest(tag=i, child=n, kids=[Nest(g_n=0)] if i % 7 == 0 else [])
+        return bytes(n)
+    valid = [("Nest chain of depth 40", Nest, chain_bytes(40)), ("Nest chain of depth 90", Nest, chain_bytes(90)), ("flat Nest", Nest, bytes(Nest(tag=5, g_n=0))),
+             ("Deep with everything", Deep, bytes(Deep(one=Choice(label="x"), mid=Mid(name="m", leaf=Leaf(n=1)), r_d=[1.5, 2.5], m_choice={"k": Choice(count=1)})) + bytes.fromhex("f00107")),
+             ("Choice", Choice, bytes(Choice(flag=True)))]
+
+    def observe():
+        out = []
+        for name, cls, data in valid:
+            try:
+                m = cls().parse(data)
+                st = io.BytesIO(betterproto.encode_varint(len(data)) + data)
+                m2 = cls().load(st, betterproto.SIZE_DELIMITED)
+                out.append((name, bytes(m).hex(), bytes(m2).hex()))
+            except Exception as e:
+                out.append((name, "raises " + type(e).__name__ + ": " + str(e)[:80], ""))
+        return out
+    before = observe()
+    deep_bad = chain_bytes(30)
+    bads = [bytes.fromhex("12056162"), bytes.fromhex("1202fffe"), bytes.fromhex("0001"), bytes.fromhex("0880"), bytes.fromhex("0f"), bytes.fromhex("08" + "ff" * 11),
+            deep_bad[:-3], deep_bad[:len(deep_bad) // 2], chain_bytes(12)[:-1], bytes.fromhex("2a02fffe")]
+    rejected = 0
+    for rnd_i in range(30):
+        for bad in bads:
+            for cls in (Nest, Choice, Deep):
+                try:
+                    cls().parse(bad)
+                except Exception:
+                    rejected += 1
+                try:
+                    cls().load(io.BytesIO(betterproto.encode_varint(len(bad) + 2) + bad), betterproto.SIZE_DELIMITED)
+                except Exception:
+                    rejected += 1
+    how = f"{len(valid)} valid encodings decoded before and after {rejected} rejected inputs"
+    col.cases += 1
+    col.distinct.add(how)
+    after = observe()
+    for x, y in zip(before, after):
+        if x != y:
+            col.fail("rejected-inputs-change-later-decodes", how, f"{x[0]}: before {x[1][:60]} / {x[2][:60]} after {y[1][:100]} / {y[2][:60]}")
+        if x[1].startswith("raises"):
+            col.fail("valid-encoding-rejected", how, f"{x[0]}: {x[1]}")
+
+
+def failing_observers(col):
+    """C14 for observers that RAISE: a chain nested deeper than the interpreter's stack makes the recursive observers fail
+    (RecursionError); a failed observation is still an observation - what the operands later compare equal to, encode to
+    (where that is possible) and report is unchanged"""
+    depth = sys.getrecursionlimit() * 3
+
+    def chain(top_tag):
+        n = Nest(tag=1, g_s="leaf")
+        for i in range(depth):
+            n = Nest(tag=2, child=n)
+        n.tag = top_tag
+        return n
+
+    def shallow(n):
+        return (n.tag, betterproto.which_one_of(n, "g"), betterproto.serialized_on_wire(n.child), len(n.kids), bytes(n._unknown_fields))
+
+    observers = [("a == b", lambda a, b: a == b), ("a != b", lambda a, b: a != b), ("bytes(a)", lambda a, b: bytes(a)), ("len(a)", lambda a, b: len(a)),
+                 ("repr(a)", lambda a, b: repr(a)), ("bool(a)", lambda a, b: bool(a)), ("a.to_dict()", lambda a, b: a.to_dict()), ("a.to_json()", lambda a, b: a.to_json()),
+                 ("a.to_pydict()", lambda a, b: a.to_pydict()), ("copy.deepcopy(a)", lambda a, b: copy.deepcopy(a)), ("pickle.dumps(a)", lambda a, b: pickle.dumps(a))]
+    a, b = chain(7), chain(7)
+    for oname, op in observers:
+        how = f"a, b = two equal chains of depth {depth}; {oname} (may raise); then b.tag = 9; a == b"
+        col.cases += 1
+        col.distinct.add(how)
+        sa, sb = shallow(a), shallow(b)
+        raised = None
+        try:
+            op(a, b)
+        except (RecursionError, MemoryError) as e:
+            raised = type(e).__name__
+        except Exception as e:
+            col.fail("observer-on-deep-chain-raises-other", how, repr(e)[:200])
+        if (shallow(a), shallow(b)) != (sa, sb):
+            col.fail("failed-observer-changed-an-operand", how, f"{sa},{sb} -> {shallow(a)},{shallow(b)} (observer raised {raised})")
+        b.tag = 9
+        try:
+            eq, ne = (a == b), (a != b)
+            if eq or not ne:
+                col.fail("failed-observer-changed-what-the-message-compares-equal-to", how,
+                         f"a.tag=7, b.tag=9 but a == b is {eq}, a != b is {ne} (observer raised {raised})")
+        except Exception as e:
+            col.fail("comparison-after-failed-observer-raises", how, repr(e)[:200])
+        # a message of ordinary depth that shares nothing with the chains still behaves
+        x, y = Nest(tag=1, child=Nest(tag=2)), Nest(tag=1, child=Nest(tag=3))
+        if x == y or not (x == Nest(tag=1, child=Nest(tag=2))) or bytes(x) != bytes.fromhex("080112020802"):
+            col.fail("failed-observer-disturbs-other-messages", how, f"x == y: {x == y}, bytes(x) = {bytes(x).hex()}")
+        b.tag = 7
 
 
 def eq_histories(col):
@@ -1480,10 +1701,17 @@ def main(argv=None):
             extra(col, "copy_histories", lambda: copy_histories(col))
         if a.prop == "C14":
             extra(col, "eq_histories", lambda: eq_histories(col))
+            extra(col, "failing_observers", lambda: failing_observers(col))
+        if a.prop in ("C07", "C17"):
+            extra(col, "failed_decode_states", lambda: failed_decode_states(col))
+        if a.prop in ("C01", "C02", "C08", "C10", "C17"):
+            extra(col, "decodes_after_failures", lambda: decodes_after_failures(col))
         if a.prop in ("C08", "C14"):
             extra(col, "shared_state_after_copy", lambda: shared_state_after_copy(col))
         if a.prop in ("C10", "C16"):
             extra(col, "stream_kinds", lambda: stream_kinds(col))
+        if a.prop in ("C10", "C17"):
+            extra(col, "truncation_at_scale", lambda: truncation_at_scale(col, a.prop))
         if a.prop in ("C01", "C02", "C08", "C09", "C10", "C17"):
             extra(col, "high_numbers", lambda: high_numbers(col, a.prop))
     if not col.samples:
